@@ -441,6 +441,8 @@ func traceSig(hr *HistoryRun, n int) []string {
 			out = append(out, fmt.Sprintf("L:%d", len(ev.Data)))
 		case 'G':
 			out = append(out, "G")
+		case 'T':
+			out = append(out, fmt.Sprintf("T:%d", ev.Page))
 		}
 	}
 	return out
